@@ -7,6 +7,7 @@ package mcp
 
 import (
 	"context"
+	"errors"
 	"fmt"
 	"io"
 	"net/http"
@@ -89,6 +90,16 @@ type c11Sess struct {
 	closing bool
 }
 
+// c11FailingStore is an event store whose SessionClosed reports an error (a backing service that
+// is down at teardown): the session must be closed and forgotten all the same.
+type c11FailingStore struct{ EventStore }
+
+func (c11FailingStore) SessionClosed(context.Context, string) error {
+	return errors.New("verif: event store unavailable")
+}
+
+var c11WithFailingStore bool
+
 func c11Run(t *testing.T, ops []c11Op, hist []int) (out verifx.SearchResult) {
 	defer func() {
 		if r := recover(); r != nil {
@@ -97,6 +108,13 @@ func c11Run(t *testing.T, ops []c11Op, hist []int) (out verifx.SearchResult) {
 	}()
 	synctest.Test(t, func(t *testing.T) { out = c11InBubble(ops, hist) })
 	return out
+}
+
+func c11Store() EventStore {
+	if c11WithFailingStore {
+		return c11FailingStore{NewMemoryEventStore(nil)}
+	}
+	return nil
 }
 
 func c11InBubble(ops []c11Op, hist []int) verifx.SearchResult {
@@ -115,7 +133,7 @@ func c11InBubble(ops []c11Op, hist []int) verifx.SearchResult {
 		<-gate
 		return &CallToolResult{}, nil, nil
 	})
-	h := NewStreamableHTTPHandler(func(*http.Request) *Server { return s }, &StreamableHTTPOptions{SessionTimeout: c11Timeout, Logger: quietLogger})
+	h := NewStreamableHTTPHandler(func(*http.Request) *Server { return s }, &StreamableHTTPOptions{SessionTimeout: c11Timeout, Logger: quietLogger, EventStore: c11Store()})
 	verifier := func(ctx context.Context, token string, r *http.Request) (*auth.TokenInfo, error) {
 		return &auth.TokenInfo{UserID: token, Expiration: time.Now().Add(time.Hour)}, nil
 	}
@@ -551,6 +569,14 @@ func TestVerifC11(t *testing.T) {
 		MaxDepth: env.Pick(4, 5), ShallowDepth: env.Pick(2, 3),
 		Run: func(h []int) verifx.SearchResult { return c11Run(t, ops, h) },
 	})
+	// the same search (one level shallower) on a handler whose event store fails at session teardown
+	c11WithFailingStore = true
+	env.RunSearch(res, &verifx.Search{
+		Name: "session-history-search/event-store-fails-at-teardown", NumOps: len(ops), OpName: func(i int) string { return ops[i].name },
+		MaxDepth: env.Pick(3, 4), ShallowDepth: env.Pick(2, 3),
+		Run: func(h []int) verifx.SearchResult { return c11Run(t, ops, h) },
+	})
+	c11WithFailingStore = false
 	c11Stateless(env, res, t)
 	env.Finish(res)
 }
